@@ -5,6 +5,7 @@
  *     #include "contracts/common.h"  #include "contracts/allocator.h"
  *     #include "source/allocator_sba.c"          (the REAL file)
  *     #include "contracts/allocator_sba.h"       (re-declarations with contracts + spec functions; this file)
+ *   SBA_BLOCK_LAYER       selects the DFCC contracts, SBA_BLOCK_LAYER_ONLY drops the representation layer (units/C03/sba_block.c)
  *
  * Two layers (DESIGN 5/C03):
  *   representation layer : spec functions sba_* over the real structs (bin invariant, "live chunk", byte counts).  Used by the
@@ -58,17 +59,19 @@
 #    define SBA_MAXF 9
 #endif
 
-/* a page object as the model allocates it (the code under test only sees uint8_t* / struct page_header*) */
-struct sba_page_model {
-    struct page_header hdr;
-    uint8_t body[AWS_SBA_PAGE_SIZE - sizeof(struct page_header)];
-};
 uint8_t *g_pt[SBA_MAXP];
 bool g_pt_alive[SBA_MAXP];
 #define SBA_H(i) ((struct page_header *)g_pt[(i)])
+/* a page object of the model: exactly one page of arbitrary bytes.  The size goes through a variable (and two
+ * inequalities, which constant propagation does not turn into a literal) so that CBMC keeps the 4 KiB as an array term
+ * instead of copying 32768 bits at every store to the page header (13M -> 1M variables). */
 static inline uint8_t *sba_model_new_page(void) {
+#ifdef SBA_PAGE_FIXED
+    size_t n = SBA_PAGE;
+#else
     size_t n = nondet_size_t();
     __CPROVER_assume(n <= SBA_PAGE && n >= SBA_PAGE);
+#endif
     uint8_t *p = malloc(n); /* arbitrary contents */
     __CPROVER_assume(p != NULL);
     return p;
